@@ -408,4 +408,43 @@ theorem sliceBody_spec {p : PalPlan} {newPal : Bool} {wv zv : List Nat} {g : Grc
   simp only [length_append, putSliceHeader_length, Nat.add_assoc]
   exact ⟨_, rfl, rfl, rfl, rfl, rfl, rfl⟩
 
+/-- one slice inside the slice loop -/
+theorem sliceLoop_slice {p : PalPlan} {newPal : Bool} {wv zv : List Nat} {g : GrcCfg} {ws : List Int}
+    {ubits wCfg zCfg : Nat} (hp : PalOk p) (hg : grcCfg ubits wCfg zCfg = some g)
+    (hs : SliceOk p newPal wv zv g) (hd : Dec (palOf p) wv ws) :
+    ∃ bits, encodeSlice wv zv p newPal ubits wCfg zCfg = .ok bits ∧
+      ∀ (f : Nat) (o : Outer) (rest : List Bool) (pos : Nat),
+        (newPal = false → o.first = false ∧ o.pal = palOf p ∧ (o.zPrevDiv != zdivDisable) = p.useZeroRuns) →
+        ∃ o', sliceLoop (f + 1) o ⟨bits ++ rest, pos⟩ = sliceLoop f o' ⟨rest, pos + bits.length⟩ ∧
+          o'.first = false ∧ o'.pal = palOf p ∧ (o'.zPrevDiv != zdivDisable) = p.useZeroRuns ∧
+          o'.out = (sliceOut p.useZeroRuns newPal ws zv).reverse ++ o.out ∧ o'.eos = o.eos ∧
+          o'.sliceEnd = pos + bits.length := by
+  obtain ⟨cb, hcb, _⟩ := chunks_spec hs
+  refine ⟨sliceHeader g p wv.length newPal ++ cb, ?_, ?_⟩
+  · unfold encodeSlice
+    rw [if_neg (by have := hs.len; omega), hg]
+    simp only [valuesOk_ok hs, hcb]
+  · intro f o rest pos ho
+    obtain ⟨o', h1, h2, h3, h4, h5, h6⟩ := sliceBody_spec hp hs hd cb hcb o rest (pos + 3) ho
+    have hzd : g.zdivField p.useZeroRuns < 8 ∧ g.zdivField p.useZeroRuns ≠ zdivEos := by
+      unfold GrcCfg.zdivField zdivDisable zdivEos; have := hs.zdiv; split <;> omega
+    have huz : (g.zdivField p.useZeroRuns != zdivDisable) = p.useZeroRuns := by
+      unfold GrcCfg.zdivField zdivDisable
+      cases p.useZeroRuns
+      · simp
+      · have := hs.zdiv; simp; omega
+    refine ⟨{ o' with sliceEnd := pos + (sliceHeader g p wv.length newPal ++ cb).length }, ?_, h2, h3, ?_, h5, h6, rfl⟩
+    · rw [sliceLoop]
+      simp only [bind_eq, pure_eq, Rd.bind, sliceHeader, append_assoc]
+      rw [get_putBits 3 _ _ _ hzd.1]
+      have hne : (putSliceHeader wv.length g.wdivField g.wTrunc newPal ++
+          ((if newPal = true then putPaletteHeader p.directOffset p.palbits p.lut else []) ++ (cb ++ rest))).isEmpty = false := by
+        simp [putSliceHeader, putBits]
+      simp only [beq_iff_eq, hzd.2, if_false, Rd.bind, atEnd, hne, Bool.false_eq_true]
+      simp only [append_assoc] at h1
+      rw [h1]
+      simp only [bitPos, length_append, putBits_length, Nat.add_assoc]
+    · show (o'.zPrevDiv != zdivDisable) = _
+      rw [h4, huz]
+
 end VelaVerif.MlwEnc
